@@ -109,6 +109,7 @@ def run(chk, cname, checker, names=None, prefix=None, backend="structural", kind
     names = names or [n for n, e in catalog.ENTRIES.items() if catalog.supported(e)]
     tasks = [(cname, n, sv) for n in names for sv in catalog.vectors(catalog.ENTRIES[n])]
     if len(tasks) > 16 and chk.jobs > 1:
+        import gc; gc.collect(); gc.freeze()  # forked workers then touch (copy) far fewer pages
         with mp.get_context("fork").Pool(min(chk.jobs, 16)) as pool:
             results = pool.map(_work, tasks, chunksize=max(1, len(tasks) // 128))
     else:
